@@ -2051,7 +2051,12 @@ func (self *Node) parseRaw(full bool) {
 		*self, e = parser.Parse()
 	}
 	if e != 0 {
-		*self = *newSyntaxError(parser.syntaxError(e))
+		if lock {
+			// keep the mutex (the deferred unlock needs it) and publish the type last
+			self.assign(*newSyntaxError(parser.syntaxError(e)))
+		} else {
+			*self = *newSyntaxError(parser.syntaxError(e))
+		}
 	}
 }
 
